@@ -44,6 +44,10 @@ def load():
     repo = os.path.abspath(REPO)
     if sys.path[0:1] != [repo]:
         sys.path.insert(0, repo)
+    # locks created by code of the fastavro package become cooperative (see sched.SimLock); every
+    # other caller of threading.Lock() keeps getting real locks
+    import sched as _sched
+    _sched.install_lock_seam()
     import fastavro  # noqa
     import fastavro.utils  # noqa
     import fastavro.json_read  # noqa
